@@ -1,6 +1,7 @@
 import Blots.Lemmas.PrattRoundTrip
 import Blots.Lemmas.PrintLemmas
 import Blots.Lemmas.FormatSquashLayouts
+import Blots.Lemmas.FormatFragment
 import Blots.Model.Format
 /-
   C07 — the formatter preserves program meaning: the parts that are *logic of the printer*.
@@ -44,11 +45,24 @@ import Blots.Model.Format
           lambdas everywhere (reference: `expr_to_source`), `lamOk` only below those nodes
           (reference: `flat`, which prints the parameter list as the formatter does).
 
-  NOT proved (and not provable in this model): that the *whole* printed text, lexed character
-  by character by the PEG grammar, yields the item sequence `items e` (identifiers, numbers,
-  keywords, white space, brackets).  That is tied to the real code by the correspondence
-  harness (model output = Rust output on generated programs) and by the model-free reparse
-  oracle of `harness/src/props/c07.rs` (format, parse again, compare trees).
+   8. END TO END ON THE OPERATOR FRAGMENT (`Frag t`, `Lemmas/ExprPegLemmas.lean`: binary
+      operators, prefix `-` / `!`, postfix `!`, parentheses over non-reserved identifiers,
+      built-in names, `true false null`, integers 0 ≤ n < 10^15; unbounded depth).  For EVERY
+      width the text `format_expr` returns is a re-layout (`Relayout`) of the printed text, in
+      at most one redundant pair of parentheses, and the character-level PEG model of the
+      `expression` rule followed by the Pratt parser reads it back to the tree
+      (`format_is_relayout`, `format_text_roundtrip`).  The layout the formatter chooses —
+      line break + indent in front of the operator, one blank behind it — is admissible for all
+      26 operators, word or symbol (`break_before_operator_is_admissible`); no operator /
+      layout combination the formatter can emit on the fragment is refused by the grammar.
+      (`Lemmas/FormatFragment.lean`.)
+
+  NOT proved: the text-level round trip OUTSIDE the operator fragment — that the whole
+  formatted text of a tree with strings, lists, records, lambdas, conditionals, do-blocks,
+  calls, comments, lexed character by character by the PEG grammar, yields the tree.  That is
+  tied to the real code by the correspondence harness (model output = Rust output on generated
+  programs) and by the model-free reparse oracle of `harness/src/props/c07.rs` (format, parse
+  again, compare trees).
 -/
 namespace Blots.C07
 open Blots.PrattRT Blots.PrintL Blots.Squash Blots.FormatL
@@ -350,6 +364,112 @@ theorem quote_in_a_name_breaks_layout_equivalence :
     lamOk e = true ∧ anyComment e = false ∧ namesOk e = false := by
   decide +kernel
 
+/-! ### 8. END TO END on the operator fragment: format, then read the TEXT back -/
+
+section text
+open Blots.ExprPeg Blots.FormatFrag
+
+/-- `format_expr_impl` ONLY RE-LAYOUTS the printed text of a fragment tree: for every width and
+    indent its result is, character for character, the text of a concrete syntax tree `c` with
+    `Relayout t c` — the atoms, operators and parentheses `expr_to_source` writes, with other
+    ADMISSIBLE layout strings (`CST.layOk`) around the binary operators. -/
+theorem format_is_relayout (t : Expr) (h : Frag t) (w indent : Nat) :
+    ∃ c : CST, Relayout t c ∧ fmtImpl w indent t = String.ofList c.text :=
+  ⟨fmtCST w indent t, fmtCST_relayout t h w indent, fmtImpl_eq_text t h w indent⟩
+
+/-- … and which tree that is (`fmtCST`): the printer's own wherever the single-line form fits;
+    otherwise, for a binary operator, `left ⏎ indent+2 blanks  op ␣ right` over the re-formatted
+    operands, for a prefix / postfix operator the sign directly at the re-formatted operand. -/
+theorem format_layout_tree (w indent : Nat) :
+    (∀ t, Frag t → fits w indent t = true → fmtCST w indent t = canon t) ∧
+    (∀ op l r, fits w indent (.bin op l r) = false → fmtCST w indent (.bin op l r) =
+      .bin op (wrap (needsParens l (.binLeft op)) (fmtCST w indent l))
+        (.lf :: List.replicate (indent + 2) .sp) [.sp]
+        (wrap (needsParens r (.binRight op)) (fmtCST w (indent + 2) r))) ∧
+    (∀ op e, fits w indent (.un op e) = false → fmtCST w indent (.un op e) =
+      .un op (wrap (needsParens e .prefix_) (fmtCST w indent e))) ∧
+    (∀ e, fits w indent (.fact e) = false → fmtCST w indent (.fact e) =
+      .fact (wrap (needsParens e .postfix_) (fmtCST w indent e))) := by
+  refine ⟨?_, ?_, ?_, ?_⟩
+  · intro t h hf
+    cases t <;> first
+      | (simp [Frag, frag] at h; done)
+      | (unfold fmtCST; rw [if_pos hf])
+      | rfl
+  · intro op l r hf; rw [fmtCST, hf]; rfl
+  · intro op e hf; rw [fmtCST, hf]; rfl
+  · intro e hf; rw [fmtCST, hf]; rfl
+
+/-- the same on strings: where the single-line form fits the output is `expr_to_source`;
+    where it does not, the operator of a binary node starts a new line two columns deeper and
+    is followed by one blank. -/
+theorem format_layout_text (w indent : Nat) :
+    (∀ t, Frag t → fits w indent t = true → fmtImpl w indent t = exprToSource t) ∧
+    (∀ op l r, Frag (.bin op l r) → fits w indent (.bin op l r) = false →
+      fmtImpl w indent (.bin op l r) =
+        parenIf (needsParens l (.binLeft op)) (fmtImpl w indent l) ++ "\n" ++
+          makeIndent (indent + 2) ++ opSpelling op ++ " " ++
+          parenIf (needsParens r (.binRight op)) (fmtImpl w (indent + 2) r)) ∧
+    (∀ op e, fits w indent (.un op e) = false → fmtImpl w indent (.un op e) =
+      unaryOpToSource op ++ parenIf (needsParens e .prefix_) (fmtImpl w indent e)) ∧
+    (∀ e, fits w indent (.fact e) = false → fmtImpl w indent (.fact e) =
+      parenIf (needsParens e .postfix_) (fmtImpl w indent e) ++ "!") :=
+  ⟨fun t h hf => fmtImpl_fits t h w indent hf,
+   fun op l r h hf => fmtImpl_bin_break w indent op l r (frag_notLambda (frag_bin h).2) hf,
+   fmtImpl_un_break w indent, fmtImpl_fact_break w indent⟩
+
+/-- THE LAYOUT THE FORMATTER CHOOSES IS ADMISSIBLE for each of the 26 binary operators, word
+    or symbol: any layout that starts with a line break in front of the operator, one blank
+    behind it.  (A line break BEHIND a word operator, or no layout in front of `!=`, would not
+    be: `CST.layOk`.) -/
+theorem break_before_operator_is_admissible (op : BinOp) (indent : Nat) :
+    CST.layOk op (.lf :: List.replicate (indent + 2) .sp) [.sp] = true ∧
+    CST.layOk op [.sp] [.sp] = true :=
+  ⟨layOk_break op indent, layOk_sp op⟩
+
+/-- `format_expr` = `protect_statement_start ∘ format_expr_impl` at indent 0: a re-layout of the
+    printed text, in ONE extra pair of parentheses when it starts with `-`. -/
+theorem format_expr_is_relayout_in_parens (t : Expr) (h : Frag t) (mw : Option Nat) :
+    ∃ c c' : CST, Relayout t c ∧ Wraps c c' ∧ formatExpr t mw = String.ofList c'.text ∧
+      (c' = c ∨ c' = .paren [] c []) := by
+  refine ⟨fmtCST (mw.getD DEFAULT_MAX_COLUMNS) 0 t, formatCST t mw,
+    fmtCST_relayout t h _ 0, formatCST_wraps t mw, formatCST_text t h mw, ?_⟩
+  unfold formatCST
+  simp only
+  split
+  · exact Or.inr rfl
+  · exact Or.inl rfl
+
+/-- C07 AT TEXT LEVEL (operator fragment, every width): formatting a tree and reading the
+    text back — character-level PEG recogniser for `expression`, then the Pratt parser — gives
+    the tree.  Unbounded depth; includes the parentheses of `protect_statement_start`. -/
+theorem format_text_roundtrip (t : Expr) (h : Frag t) (w : Nat) :
+    parseText (formatExpr t (some w)) = some t := formatExpr_parse t h (some w)
+
+/-- … at the default width … -/
+theorem format_text_roundtrip_default (t : Expr) (h : Frag t) :
+    parseText (formatExpr t none) = some t := formatExpr_parse t h none
+
+/-- … and for `format_expr_impl` at any indent (the text of a nested operand) -/
+theorem format_impl_text_roundtrip (t : Expr) (h : Frag t) (w indent : Nat) :
+    parseText (fmtImpl w indent t) = some t := by
+  obtain ⟨hwf, _, ht⟩ := relayout_wf h (fmtCST_relayout t h w indent)
+  have := cst_roundtrip _ hwf
+  rw [ht] at this
+  rw [fmtImpl_eq_text t h w indent]
+  exact this
+
+/-- the formatted text is split by the grammar into exactly the item sequence of the printed
+    text (`items t` of `printed_operators_reparse`) when no parentheses are added -/
+theorem format_impl_lexes_to_items (t : Expr) (h : Frag t) (w indent : Nat) (fuel : Nat)
+    (hf : fuelFor (fmtImpl w indent t).toList ≤ fuel) :
+    exprItems fuel (fmtImpl w indent t).toList = some (items t, []) := by
+  obtain ⟨hwf, hi, _⟩ := relayout_wf h (fmtCST_relayout t h w indent)
+  rw [← fmtCST_text t w indent h] at hf ⊢
+  rw [← hi]
+  exact cst_lex _ hwf fuel hf
+
+end text
 /-! #### examples: the hypotheses are satisfiable by non-trivial values -/
 
 section examples
@@ -466,5 +586,72 @@ example : squash "f(a, 'x ,)' ,\n)" = "f(a,'x ,)')" := by decide
 example : squash "a, b" = "a,b" := by decide
 example : squash "x => x" ≠ squash "(x) => x" := by decide
 end examples
+
+/-! #### examples for 8 (text level) -/
+
+section text_examples
+open Blots.ExprPeg Blots.FormatFrag
+private abbrev ia : Expr := .ident "a"
+private abbrev ib : Expr := .ident "b"
+private abbrev ic : Expr := .ident "c"
+private abbrev id4 : Expr := .ident "d"
+private abbrev ie : Expr := .ident "e"
+private abbrev ig : Expr := .ident "g"
+private abbrev two : Expr := .num ⟨0x4000000000000000⟩
+
+/-- what the model reads from a text, shown as the printer's text of the parsed tree (`Expr`
+    has no decidable equality; the theorems give the trees themselves) -/
+private def reads (s : String) : Option String := (parseText s).map exprToSource
+
+/-- `a + b * c - d ^ 2 ?? e and !g! != true`: symbol operators on five levels, a word
+    operator, `!=` behind a postfix `!` -/
+private abbrev x1 : Expr :=
+  .bin .nand
+    (.bin .sub (.bin .add ia (.bin .mul ib ic)) (.bin .pow id4 (.bin .coalesce two ie)))
+    (.bin .ne (.un .not (.fact ig)) (.bool true))
+example : Frag x1 := by decide +kernel
+/-- three widths, three texts … -/
+example : formatExpr x1 (some 80) = "a + b * c - d ^ 2 ?? e and !g! != true" ∧
+    formatExpr x1 (some 10) = "a + b * c\n  - d\n    ^ 2 ?? e\n  and !g!\n    != true" ∧
+    formatExpr x1 (some 1) =
+      "a\n  + b\n    * c\n  - d\n    ^ 2\n      ?? e\n  and !g!\n    != true" := by
+  decide +kernel
+/-- … one parse: by the theorem (the tree itself) … -/
+example : parseText (formatExpr x1 (some 1)) = some x1 ∧
+    parseText (formatExpr x1 (some 10)) = some x1 ∧ parseText (formatExpr x1 (some 80)) = some x1 :=
+  ⟨format_text_roundtrip x1 (by decide +kernel) 1, format_text_roundtrip x1 (by decide +kernel) 10,
+    format_text_roundtrip x1 (by decide +kernel) 80⟩
+/-- … and by evaluating the PEG + Pratt model on the three texts (no theorem involved) -/
+example : reads (formatExpr x1 (some 1)) = some "a + b * c - d ^ 2 ?? e and !g! != true" ∧
+    reads (formatExpr x1 (some 10)) = some "a + b * c - d ^ 2 ?? e and !g! != true" ∧
+    reads (formatExpr x1 (some 80)) = some "a + b * c - d ^ 2 ?? e and !g! != true" := by
+  decide +kernel
+/-- the concrete syntax tree at width 10 and indent 0: which nodes are broken -/
+example : fits 10 0 x1 = false ∧ fits 10 0 (.bin .add ia (.bin .mul ib ic)) = true ∧
+    fits 10 2 (.bin .coalesce two ie) = true := by decide +kernel
+
+/-- a statement that starts with `-` (parenthesised by `protect_statement_start`), `via`
+    with a non-lambda right operand in parentheses, a parenthesised prefix under a postfix:
+    `-(a + (b via c)) * (-d)!` -/
+private abbrev x2 : Expr :=
+  .bin .mul (.un .negate (.bin .add ia (.bin .via ib ic))) (.fact (.un .negate id4))
+example : Frag x2 := by decide +kernel
+example : formatExpr x2 (some 80) = "(-(a + (b via c)) * (-d)!)" ∧
+    formatExpr x2 (some 6) = "(-(a\n  + (b\n    via c))\n  * (-d)!)" ∧
+    formatExpr x2 (some 1) = formatExpr x2 (some 6) := by decide +kernel
+example : parseText (formatExpr x2 (some 6)) = some x2 :=
+  format_text_roundtrip x2 (by decide +kernel) 6
+example : reads (formatExpr x2 (some 6)) = some "-(a + (b via c)) * (-d)!" ∧
+    reads (formatExpr x2 (some 80)) = some "-(a + (b via c)) * (-d)!" := by decide +kernel
+/-- the witnesses of `format_expr_is_relayout_in_parens` for it: the second alternative -/
+example : (formatCST x2 (some 6)).text = '(' :: ((fmtCST 6 0 x2).text ++ [')']) ∧
+    (formatCST x2 (some 6)).isParen = true ∧ (formatCST x1 (some 6)).isParen = false := by
+  decide +kernel
+
+/-- WHAT WOULD NOT READ BACK, and the formatter never writes: the line break BEHIND a word
+    operator, `!=` directly behind its operand -/
+example : reads "a and\n  b" = none ∧ reads "a\n  and b" = some "a and b" ∧
+    reads "g!!= true" = none ∧ reads "g!\n  != true" = some "g! != true" := by decide +kernel
+end text_examples
 
 end Blots.C07
